@@ -279,7 +279,13 @@ impl Cli {
         let file = fake.dir.join(if c.apx { "instance.apx" } else { "instance.af" });
         std::fs::write(&file, &p.file_text).expect("cannot write instance");
         let g = G::new(c.g.n, &c.g.att_usize());
-        let fams = Fams::new(&g);
+        let fams = match Fams::auto(&g) {
+            Some(f) => f,
+            None => return Ok(()),
+        };
+        if g.n > 13 {
+            rec.class("core-graph-of-14-24-arguments");
+        }
         let a = idx(c.arg, g.n.max(1));
         let query_pad = c.query_pad && !p.pad_labels.is_empty() && c.q != Q::SE;
         let arg_label = if query_pad {
@@ -615,8 +621,17 @@ impl Cli {
 }
 
 fn good_case(nmax: usize) -> BoxedStrategy<GoodCase> {
+    good_case_over(gen::graph(nmax), nmax)
+}
+
+/// Instances whose core is an irregular graph of 14-24 arguments (judged by the backtracking reference).
+fn good_case_medium() -> BoxedStrategy<GoodCase> {
+    good_case_over(gen::graph_single(24).prop_filter("14 arguments at least", |g| g.n >= 14).boxed(), 24)
+}
+
+fn good_case_over(graph: BoxedStrategy<gen::AbsGraph>, nmax: usize) -> BoxedStrategy<GoodCase> {
     (
-        (gen::graph(nmax), any::<bool>(), prop_oneof![10 => 0u8..4, 1 => Just(4u8)], vec(any::<u8>(), nmax), 0u8..6),
+        (graph, any::<bool>(), prop_oneof![10 => 0u8..4, 1 => Just(4u8)], vec(any::<u8>(), nmax), 0u8..6),
         (0u8..3, 0usize..7, 0u8..3, any::<u16>(), any::<u16>(), any::<bool>()),
         (0u8..4, 0u8..7, any::<bool>(), prop_oneof![9 => Just(false), 1 => Just(true)], prop_oneof![9 => Just(false), 1 => Just(true)], prop_oneof![3 => Just(0u8), 2 => 1u8..12, 2 => 12u8..130], prop_oneof![4 => Just(false), 1 => Just(true)], prop_oneof![15 => Just(false), 1 => Just(true)]),
     )
@@ -665,6 +680,7 @@ impl Prop for Cli {
     fn strategy(&self, _tier: Tier) -> BoxedStrategy<CliCase> {
         prop_oneof![
             78 => good_case(7).prop_map(CliCase::Good),
+            4 => good_case_medium().prop_map(CliCase::Good),
             22 => (good_case(5), 0u8..BAD_KINDS, any::<u16>()).prop_map(|(c, k, v)| CliCase::Bad(c, k, v)),
         ]
         .boxed()
